@@ -1030,7 +1030,12 @@ fn run_create(spec: &Spec, stub: &str) {
             show_table("fds_after_err");
         }
     }
-    if spec.get("relaunch_path").is_some() || spec.get("relaunch_sigpipe").is_some() {
+    if spec.get("relaunch_path").is_some() || spec.get("relaunch_sigpipe").is_some() || spec.get("relaunch_stderr").is_some() {
+        if let Some(p) = spec.get("relaunch_stderr") {
+            // the parent re-points its own standard error (as a daemon does with its log) between the two launches
+            let f = File::create(p).unwrap();
+            unsafe { libc::syscall(libc::SYS_dup2, f.as_raw_fd(), 2) };
+        }
         // the same launch once more in the same process after the parent's PATH / SIGPIPE disposition / signal mask
         // has changed
         if let Some(p2) = spec.get("relaunch_path") {
